@@ -1119,17 +1119,19 @@ impl Op {
 
                 let (is_zero, is_x) = match (x.as_ref(), y.as_ref()) {
                     (Value::U64(x), Value::U64(y)) => {
-                        let is_zero = (x.payload & !x.mask_xz) != (y.payload & !y.mask_xz);
+                        // A definite mismatch needs a bit position where BOTH
+                        // sides are known and differ (LRM 11.4.5); a known bit
+                        // against x/z is ambiguous.
+                        let known = !(x.mask_xz | y.mask_xz);
+                        let is_zero = (x.payload ^ y.payload) & known != 0;
                         let is_x = x.mask_xz != 0 || y.mask_xz != 0;
 
                         (is_zero, is_x)
                     }
                     (Value::BigUint(x), Value::BigUint(y)) => {
-                        let x_mask = mask_cache.get(x.width as usize).clone();
-                        let y_mask = mask_cache.get(y.width as usize);
-
-                        let is_zero = (x.payload() & (x.mask_xz() ^ x_mask))
-                            != (y.payload() & (y.mask_xz() ^ y_mask));
+                        let mask = mask_cache.get(xy_width);
+                        let known = (x.mask_xz() | y.mask_xz()) ^ mask;
+                        let is_zero = (x.payload() ^ y.payload()) & known != b0();
                         let is_x = x.mask_xz() != &b0() || y.mask_xz() != &b0();
 
                         (is_zero, is_x)
@@ -1149,17 +1151,17 @@ impl Op {
 
                 let (is_one, is_x) = match (x.as_ref(), y.as_ref()) {
                     (Value::U64(x), Value::U64(y)) => {
-                        let is_one = (x.payload & !x.mask_xz) != (y.payload & !y.mask_xz);
+                        // see Op::Eq: only a both-known differing bit decides
+                        let known = !(x.mask_xz | y.mask_xz);
+                        let is_one = (x.payload ^ y.payload) & known != 0;
                         let is_x = x.mask_xz != 0 || y.mask_xz != 0;
 
                         (is_one, is_x)
                     }
                     (Value::BigUint(x), Value::BigUint(y)) => {
-                        let x_mask = mask_cache.get(x.width as usize).clone();
-                        let y_mask = mask_cache.get(y.width as usize);
-
-                        let is_one = (x.payload() & (x.mask_xz() ^ x_mask))
-                            != (y.payload() & (y.mask_xz() ^ y_mask));
+                        let mask = mask_cache.get(xy_width);
+                        let known = (x.mask_xz() | y.mask_xz()) ^ mask;
+                        let is_one = (x.payload() ^ y.payload()) & known != b0();
                         let is_x = x.mask_xz() != &b0() || y.mask_xz() != &b0();
 
                         (is_one, is_x)
